@@ -85,6 +85,16 @@ def make_inputs(seed, n_family, n_mut, n_raw, with_android=True, size=1.0, featu
             for tail in (b'', b'\n', b'c', b'\x00', b'class M { }'):
                 cases.append(dict(id='w%d' % k, path='wide/W%d.java' % k, data=mark + tail, origin='mutant'))
                 k += 1
+    # textually identical LONG constructs twice in one file (a method with a 2.5 KB parameter list and a 3 KB body, a
+    # 3 KB invocation, a 3 KB block comment), each pair at lines with the same number of digits: whatever derives an
+    # identity from a bounded prefix of a construct's text plus its length confuses the two
+    if n_mut:
+        longm = '    public void alpha(%s) { %s }' % (', '.join('int p%d' % k for k in range(300)), ' '.join('step(p%d, "%s");' % (k, 'x' * 20) for k in range(90)))
+        longc = '    /* ' + 'licence text ' * 260 + '*/'
+        longi = '      emit(' + ', '.join('"argument %d"' % k for k in range(220)) + ');'
+        twin = ('class LongTwins {\n  static class In1 {\n' + longc + '\n' + longm + '\n    void call1() {\n' + longi + '\n    }\n  }\n'
+                '  static class In2 {\n' + longc + '\n' + longm + '\n    void call2() {\n' + longi + '\n    }\n  }\n}\n')
+        cases.append(dict(id='lt0', path='twins/LongTwins.java', data=twin.encode(), origin='mutant'))
     # Javadoc tag lines whose first word changes length when its case is changed, holds bytes that are no UTF-8, or
     # is all there is on the line
     if n_mut:
@@ -99,6 +109,11 @@ def make_inputs(seed, n_family, n_mut, n_raw, with_android=True, size=1.0, featu
         for v in javagen.tiny_variants(src.decode('utf-8'), rng):
             cases.append(dict(id='t%d' % k, path='tiny/T%d.java' % k, data=v.encode('utf-8', errors='replace'), origin='mutant'))
             k += 1
+    # constructs nested hundreds of levels deep (past any fixed depth limit somebody might introduce)
+    if n_family:
+        for depth in (64, 540):
+            dtext, dtruth = javagen.deep_unit(depth)
+            cases.append(dict(id='deep%d' % depth, path='deep/Deep%d.java' % depth, data=dtext.encode(), origin='family', truth=dtruth, style={}))
     # same-kind constructs at many (row, column) positions of one file
     if n_family:
         for kind in javagen.GRID_KINDS:
